@@ -615,6 +615,11 @@ func main() {
 			}
 		}
 	}
+	// C20: the initialism table of modelgen's naming
+	inits := initialismFacts(*repo)
+	b.WriteString("/-- the keys of modelgen's `initialisms` table (modelgen/table.go), in source order -/\n")
+	b.WriteString("def modelgenInitialisms : List String := [" + quoteAll(inits) + "]\n\n")
+	summary["modelgen_initialisms"] = len(inits)
 	// C13: where cached models are stored and handed out
 	stores, escapes, shallowUsers := cloneFacts(*repo)
 	b.WriteString("/-- assignments `r.cache[k] = e` in package cache whose right-hand side is not model.Clone(...) -/\n")
@@ -636,6 +641,43 @@ func main() {
 	}
 	j, _ := json.Marshal(summary)
 	fmt.Println(string(j))
+}
+
+// initialismFacts: the string keys of the composite literal assigned to the package variable `initialisms`
+func initialismFacts(repo string) []string {
+	fset := token.NewFileSet()
+	f, err := parser.ParseFile(fset, filepath.Join(repo, "modelgen", "table.go"), nil, 0)
+	if err != nil {
+		fmt.Fprintln(os.Stderr, err)
+		os.Exit(1)
+	}
+	var out []string
+	for _, d := range f.Decls {
+		gd, ok := d.(*ast.GenDecl)
+		if !ok || gd.Tok != token.VAR {
+			continue
+		}
+		for _, sp := range gd.Specs {
+			vs := sp.(*ast.ValueSpec)
+			for i, n := range vs.Names {
+				if n.Name != "initialisms" || i >= len(vs.Values) {
+					continue
+				}
+				if cl, ok := vs.Values[i].(*ast.CompositeLit); ok {
+					for _, e := range cl.Elts {
+						if kv, ok := e.(*ast.KeyValueExpr); ok {
+							if bl, ok := kv.Key.(*ast.BasicLit); ok && bl.Kind == token.STRING {
+								if id, ok := kv.Value.(*ast.Ident); ok && id.Name == "true" {
+									out = append(out, strings.Trim(bl.Value, "\""))
+								}
+							}
+						}
+					}
+				}
+			}
+		}
+	}
+	return out
 }
 
 // isCacheIndex: r.cache[...] (the row map of a RowCache)
